@@ -270,6 +270,18 @@ func (ex *Exec) storeCellC(o *Object, off int64, n int, v Value) {
 // ---------- symbolic offsets ----------
 
 func alignOf(t *Term) int64 {
+	if t.op == OpConst || t.op == OpVar {
+		return alignOf1(t)
+	}
+	if t.algn != 0 {
+		return t.algn
+	}
+	a := alignOf1(t)
+	t.algn = a
+	return a
+}
+
+func alignOf1(t *Term) int64 {
 	switch t.op {
 	case OpConst:
 		if t.k == 0 {
